@@ -251,6 +251,8 @@ creationDateLoop:
 	lenIV, ok := pd["lenIV"].(postscript.Integer)
 	if !ok {
 		lenIV = 4
+	} else if lenIV < 0 {
+		return nil, errors.New("invalid lenIV")
 	}
 
 	ctx := &decodeInfo{}
